@@ -170,6 +170,7 @@ def isSync (hooks : Bool) : Act → Bool
 def syncNow (hooks : Bool) (st : St) (tid : Nat) (a : Act) : Bool :=
   match a with
   | .inc _ src => (st.slots src).isBlk
+  | .incE _ c _ => (st.slots (embSlot c)).isBlk
   | .dec t => (st.slots t).isBlk
   | .readRef t _ => hooks && (st.slots t).isBlk
   | .write _ => hooks && isWriting st tid
@@ -183,6 +184,7 @@ def traceTok (before after : St) (tid : Nat) (a : Act) : String :=
     | _ => "-"
   match a with
   | .inc _ src => s!"{tid}.inc.{refOf after src}"
+  | .incE _ c _ => s!"{tid}.inc.{refOf after (embSlot c)}"
   | .dec t => s!"{tid}.dec.{refOf after t}"
   | .readRef t _ => s!"{tid}.ref.{refOf before t}"
   | .write _ => s!"{tid}.wr"
@@ -211,6 +213,7 @@ def finished (d : DSt) (tid : Nat) : Bool :=
     the plain code that follows (`delete`, the stores of the new block, …) is a step of its own -/
 def isAtomic : Act → Bool
   | .inc .. => true
+  | .incE .. => true
   | .dec .. => true
   | .alloc .. => true
   | _ => false
@@ -219,10 +222,21 @@ def isAtomic : Act → Bool
 partial def runLocal (d : DSt) (tid : Nat) : DSt :=
   let d := refill d tid
   let t := d.thr.getD tid {}
-  match t.acts with
+  -- destructor of a counted object: a thread whose decrement reached zero and that does not own the
+  -- embedded handle takes it out of the dying object, deletes the object and then releases the handle
+  let acts := match t.acts with
+    | .free :: r =>
+      (match d.st.pc tid with
+        | .freeing c =>
+          if (d.st.slots (embSlot c)).isBlk && d.st.owner (embSlot c) != tid then
+            [.takeF (tmpU tid) c, .free, .dec (tmpU tid), .free] ++ r
+          else t.acts
+        | _ => t.acts)
+    | _ => t.acts
+  match acts with
   | [] => d
   | a :: r =>
-    if syncNow d.hooks d.st tid a then d
+    if syncNow d.hooks d.st tid a then { d with thr := d.thr.set tid { t with acts := acts } }
     else match astep d.st tid a with
       | some s' => runLocal { d with st := s', thr := d.thr.set tid { t with acts := r } } tid
       | none => { d with bad := true, thr := d.thr.set tid { t with acts := [], prog := [], inPre := none } }
@@ -293,7 +307,7 @@ def stepLine (d : DSt) (ws : List String) : DSt × String :=
     let s0 := (List.range nSlots).foldl (fun s v => giveTo s v 0) d.st
     let fin := (List.range nVars).foldl (fun (acc : Option St) v =>
       match acc with
-      | some s => runT s 0 (relP s v relFuel)
+      | some s => runT s 0 (relP s 0 v relFuel)
       | none => none) (some s0)
     match fin with
     | some s' => let d' := { d with st := s' }; (d', s!"end live={liveCount s'} bad={s'.viol}")
